@@ -10,6 +10,7 @@ opened on it, all observables are validated against the specification's persiste
 then the state is synchronised to the ledger tip (Walk) and must equal the replay of the ledger's main chain."""
 import vp
 import xstate_common as xc
+import tracecheck
 
 
 def check(run):
@@ -20,6 +21,17 @@ def check(run):
             [dict(num=500, ops=20, window=1, driver_args=["-cuts"], batch=100), dict(num=300, ops=24, window=0, maxb=9, driver_args=["-cuts"], batch=100)]
     groups = xc.gen(run, plans)
     xc.replay_validate(run, groups)
+    # ledger half: confirmations on every tree shape (extensions, side blocks, trunk switches, refused blocks) and
+    # truncations; a ledger reopened after ANY prefix of an operation's storage writes must answer like the ledger
+    # before or after the operation (Trace_Ledger.CutsOK)
+    lb = []
+    if not run.violations:
+        lb = run.tlc_gen("Gen_Ledger.tla", "Gen_Ledger.cfg", 40 if quick else 600, 16, name="genL", seed=run.seed,
+                         consts={"MaxBlocks": 8, "NTx": 3, "MaxTxPerBlock": 2, "MaxOps": 14})
+        tracecheck.replay_and_validate(run, lb, driver="ledger-replay", driver_args=["-ntx", "3", "-cuts"],
+                                       trace_module="Trace_Ledger.tla", trace_cfg="Trace_Ledger.cfg", name="L")
+    lst = xc.stats(lb)
+    run.cov["op_mix_ledger"] = dict(lst)
     behs = [b for _, bs, _ in groups for b in bs]
     st = xc.stats(behs)
     run.samples = behs[:2]
@@ -31,4 +43,5 @@ def check(run):
                         "the pool after synchronisation is not compared (any subset of the pending transactions may survive, R3); "
                         "it is rolled back before the comparison with the replay of the ledger tip"]
     run.finish(require={"walks": (st["walk:ok"] + st["walk:fail"], 20), "mined_blocks": (st["mine:ok"], 5),
-                        "admitted": (st["submit:admit"], 20)})
+                        "admitted": (st["submit:admit"], 20),
+                        "ledger_trunk_switches": (lst["confirm:ok_switch"], 5), "ledger_truncations": (lst["truncate:ok"], 3)})
